@@ -29,6 +29,11 @@ type RenderContext struct {
 	inParentCall       bool       // Flag to indicate if we're currently rendering a parent() call
 	sandboxed          bool       // Flag indicating if this context is sandboxed
 	lastLoadedTemplate *Template  // The template that created this context (for resolving relative paths)
+
+	// Definitions of blocks along the extends chain (for block substitution and parent()):
+	blockChain   map[string][][]Node // overriding definitions of each block, most-derived first
+	currentChain [][]Node            // all definitions of the block being rendered, most-derived first
+	blockDepth   int                 // which definition of currentChain is being rendered
 }
 
 // contextMapPool is a pool for the maps used in RenderContext
@@ -110,6 +115,9 @@ func NewRenderContext(env *Environment, context map[string]interface{}, engine *
 	ctx.engine = engine
 	ctx.extending = false
 	ctx.currentBlock = nil
+	ctx.blockChain = nil
+	ctx.currentChain = nil
+	ctx.blockDepth = 0
 	ctx.parent = nil
 	ctx.inParentCall = false
 	ctx.sandboxed = false
@@ -130,6 +138,8 @@ func (ctx *RenderContext) Release() {
 	ctx.env = nil
 	ctx.engine = nil
 	ctx.currentBlock = nil
+	ctx.blockChain = nil
+	ctx.currentChain = nil
 
 	// Save the maps so we can return them to their respective pools
 	contextMap := ctx.context
@@ -177,6 +187,18 @@ func (ctx *RenderContext) Release() {
 		}
 		macrosMapPool.Put(macrosMap)
 	}
+}
+
+// copyBlockChain copies the per-block lists of overriding definitions
+func copyBlockChain(chain map[string][][]Node) map[string][][]Node {
+	if len(chain) == 0 {
+		return nil
+	}
+	out := make(map[string][][]Node, len(chain))
+	for name, defs := range chain {
+		out[name] = append([][]Node(nil), defs...)
+	}
+	return out
 }
 
 // Error types
@@ -326,6 +348,9 @@ func (ctx *RenderContext) Clone() *RenderContext {
 	newCtx.engine = ctx.engine
 	newCtx.extending = false
 	newCtx.currentBlock = nil
+	newCtx.blockChain = copyBlockChain(ctx.blockChain)
+	newCtx.currentChain = nil
+	newCtx.blockDepth = 0
 	newCtx.parent = ctx
 	newCtx.inParentCall = false
 
